@@ -10,7 +10,7 @@ from .vals import Val
 from . import ops
 from .ops import Unsupported
 from . import classes as C
-from .trusted import View, RangeV, LazySeq
+from .trusted import View, RangeV, LazySeq, KeysTuple, TypeSet
 
 _FUNCS = {}
 _CTORS = {}
@@ -51,6 +51,16 @@ def _meta(ex):
 def _isinstance(ex, st, args, kwargs, text):
     from .symexec import Meta, BoundMeth
     v, t = args
+    if isinstance(t, TypeSet):
+        # isinstance against statically known classes plus the key types of a symbolic dict: for the latter the
+        # exact type is looked up (assumes no strict subclass of a handler type occurs among the values)
+        from . import trusted as T_
+        T_.used("isinstance(v, SUPPORTED_TYPES + tuple(handlers))",
+                "exact-type lookup in the handler table; subclasses of handler types are not modelled")
+        v = ex.lift(v)
+        f = z3.Or(ops.isinstance_formula(v, t.meta, C.subclass, C.cls_of),
+                  V.dict_has(t.d, V.KO(ops.type_id(v, C.cls_of))))
+        return [(st, ("val", V.VBool(f)))]
     if not isinstance(t, Meta):
         raise Unsupported("isinstance with a dynamic type")
     ts = t.py if isinstance(t.py, tuple) else (t.py,)
@@ -234,6 +244,8 @@ def _tuple(ex, st, args, kwargs, text):
     v = args[0]
     if isinstance(v, Meta):
         return [(st, ("val", Meta(tuple(v.py))))]
+    if z3.is_expr(v) and not ex.feasible(st, z3.Not(V.is_dict(v))):
+        return [(st, ("val", KeysTuple(v)))]
     return ex.env.trusted.to_list(ex, st, v, V.VTuple)
 
 
